@@ -92,6 +92,50 @@ func (t c15Tuple) source(idx int) (string, string) {
 	panic("c15 fn " + t.fn)
 }
 
+// expr returns tuple t as ONE TypeShell expression, the kind of its value (s, i, b) and Go's value rendered the way
+// the pair scripts print it; ok is false for the functions with several results.
+func (t c15Tuple) expr() (string, string, string, bool) {
+	a := func(i int) string { return q(t.strs[i]) }
+	two := func(name string) string { return fmt.Sprintf("strings.%s(%s, %s)", name, a(0), a(1)) }
+	switch t.fn {
+	case "Index":
+		return two(t.fn), "i", strconv.Itoa(strings.Index(t.strs[0], t.strs[1])), true
+	case "Count":
+		return two(t.fn), "i", strconv.Itoa(strings.Count(t.strs[0], t.strs[1])), true
+	case "Contains":
+		return two(t.fn), "b", b01(strings.Contains(t.strs[0], t.strs[1])), true
+	case "HasPrefix":
+		return two(t.fn), "b", b01(strings.HasPrefix(t.strs[0], t.strs[1])), true
+	case "HasSuffix":
+		return two(t.fn), "b", b01(strings.HasSuffix(t.strs[0], t.strs[1])), true
+	case "Repeat":
+		return fmt.Sprintf("strings.Repeat(%s, %d)", a(0), t.n), "s", strings.Repeat(t.strs[0], t.n), true
+	case "Replace":
+		return fmt.Sprintf("strings.Replace(%s, %s, %s, %d)", a(0), a(1), a(2), t.n), "s", strings.Replace(t.strs[0], t.strs[1], t.strs[2], t.n), true
+	case "ReplaceAll":
+		return fmt.Sprintf("strings.ReplaceAll(%s, %s, %s)", a(0), a(1), a(2)), "s", strings.ReplaceAll(t.strs[0], t.strs[1], t.strs[2]), true
+	case "TrimPrefix":
+		return two(t.fn), "s", strings.TrimPrefix(t.strs[0], t.strs[1]), true
+	case "TrimSuffix":
+		return two(t.fn), "s", strings.TrimSuffix(t.strs[0], t.strs[1]), true
+	case "TrimLeft":
+		return two(t.fn), "s", strings.TrimLeft(t.strs[0], t.strs[1]), true
+	case "TrimRight":
+		return two(t.fn), "s", strings.TrimRight(t.strs[0], t.strs[1]), true
+	case "Trim":
+		return two(t.fn), "s", strings.Trim(t.strs[0], t.strs[1]), true
+	case "TrimSpace":
+		return fmt.Sprintf("strings.TrimSpace(%s)", a(0)), "s", strings.TrimSpace(t.strs[0]), true
+	case "Join":
+		el := make([]string, len(t.list))
+		for i, e := range t.list {
+			el[i] = q(e)
+		}
+		return fmt.Sprintf("strings.Join([]string{%s}, %s)", strings.Join(el, ", "), a(0)), "s", strings.Join(t.list, t.strs[0]), true
+	}
+	return "", "", "", false
+}
+
 func c15Strings() []string {
 	out := []string{""}
 	alpha := []string{"a", "b", " "}
@@ -336,6 +380,95 @@ func checkC15(c *Check) {
 		}
 	})
 	c.Extra["scripts"] = len(jobs)
+	// two results of the SAME library function alive in one statement (both arguments of one call, both sides of a
+	// comparison, both operands of || and &&): a call site that keeps its result in a place named after the callee
+	// instead of a fresh one is right for every single call above and wrong here
+	{
+		type pair struct{ x, y c15Tuple }
+		byFn := map[string][]c15Tuple{}
+		for _, t := range tuples[:grouped] {
+			if _, _, _, ok := t.expr(); ok {
+				byFn[t.fn] = append(byFn[t.fn], t)
+			}
+		}
+		pairs := []pair{}
+		for _, fnm := range sortedKeys(func() map[string]string {
+			m := map[string]string{}
+			for k := range byFn {
+				m[k] = ""
+			}
+			return m
+		}()) {
+			l := byFn[fnm]
+			n := 0
+			for i := 0; i+1 < len(l) && n < c.Pick(30, 400); i++ {
+				_, _, v1, _ := l[i].expr()
+				// partner: the next tuple with another result (so that a mix-up shows)
+				for j := i + 1; j < len(l) && j < i+12; j++ {
+					if _, _, v2, _ := l[j].expr(); v2 != v1 {
+						pairs = append(pairs, pair{l[i], l[j]})
+						n++
+						break
+					}
+				}
+			}
+		}
+		const per = 30
+		npairScripts := (len(pairs) + per - 1) / per
+		parallelDo(npairScripts, 16, func(si int) {
+			lo, hi := si*per, si*per+per
+			if hi > len(pairs) {
+				hi = len(pairs)
+			}
+			var src, exp strings.Builder
+			src.WriteString("import \"strings\"\n\nfunc shows(i int, x string, y string) {\n\tprint(i, \"[\" + x + \"]\", \"[\" + y + \"]\")\n}\nfunc showi(i int, x int, y int) {\n\tprint(i, x, y)\n}\nfunc showb(i int, x bool, y bool) {\n\tprint(i, x, y)\n}\n")
+			for i := lo; i < hi; i++ {
+				e1, k, v1, _ := pairs[i].x.expr()
+				e2, _, v2, _ := pairs[i].y.expr()
+				switch k {
+				case "s":
+					fmt.Fprintf(&src, "shows(%d, %s, %s)\nprint(%d, %s == %s, %s != %s)\n", i, e1, e2, i, e1, e2, e2, e1)
+					fmt.Fprintf(&exp, "%d [%s] [%s]\n%d %s %s\n", i, v1, v2, i, b01(v1 == v2), b01(v2 != v1))
+				case "i":
+					n1, _ := strconv.Atoi(v1)
+					n2, _ := strconv.Atoi(v2)
+					fmt.Fprintf(&src, "showi(%d, %s, %s)\nprint(%d, %s == %s, %s - %s)\n", i, e1, e2, i, e1, e2, e2, e1)
+					fmt.Fprintf(&exp, "%d %s %s\n%d %s %d\n", i, v1, v2, i, b01(v1 == v2), n2-n1)
+				case "b":
+					fmt.Fprintf(&src, "showb(%d, %s, %s)\nprint(%d, %s || %s, %s && %s, %s == %s)\n", i, e1, e2, i, e1, e2, e1, e2, e2, e1)
+					fmt.Fprintf(&exp, "%d %s %s\n%d %s %s %s\n", i, v1, v2, i, b01(v1 == "1" || v2 == "1"), b01(v1 == "1" && v2 == "1"), b01(v1 == v2))
+				}
+			}
+			key := fmt.Sprintf("same-function-twice/%s-%s/%d", pairs[lo].x.fn, pairs[hi-1].x.fn, si)
+			dir := newSandbox()
+			defer os.RemoveAll(dir)
+			mainPath := filepath.Join(dir, "main.tsh")
+			os.WriteFile(mainPath, []byte(src.String()), 0o644)
+			tr := TranspileFile(mainPath, Bash, 60*time.Second)
+			for i := lo; i < hi; i++ {
+				c.Eval(fmt.Sprintf("same-function-twice/%s/%d", pairs[i].x.fn, i), true)
+			}
+			if !tr.OK() {
+				c.Violation(key, "transpile failed: "+fmt.Sprint(tr.Err), map[string]string{"main.tsh": src.String()})
+				return
+			}
+			run := newSandbox()
+			defer os.RemoveAll(run)
+			rr := RunBash(run, tr.Script, RunOpts{Timeout: 120 * time.Second})
+			if rr.TimedOut {
+				if verdict, r2 := DecideTimeout(tr.Script, 3000000, RunOpts{}, newSandbox); verdict == "finished" {
+					rr = r2
+				} else if verdict == "inconclusive" {
+					c.Inconclusive("bash watchdog fired twice without a step-limit verdict")
+					return
+				}
+			}
+			if rr.Stdout != exp.String() || rr.Stderr != "" || rr.Exit != 0 {
+				c.Violation(key, fmt.Sprintf("two calls of one function in one statement: %s (exit %d, stderr %q)", firstDiff(exp.String(), rr.Stdout), rr.Exit, clip(rr.Stderr, 200)), map[string]string{"main.tsh": src.String(), "expected.txt": exp.String(), "stdout.txt": rr.Stdout})
+			}
+		})
+		c.Extra["same_function_pairs"] = len(pairs)
+	}
 	// the library called from inside the program's own loops (its loops and the caller's run interleaved): one
 	// script per function, two nested range loops over argument slices, a counting loop for the int argument
 	{
